@@ -87,6 +87,13 @@ Proof. exact DcPacketProofs.sc_exh_ok_hmac. Qed.
 Theorem C18_sc_ups_queue_refuted : exists case, sc_judge case (sc_run case) = false.
 Proof. exact DcPacketProofs.sc_ups_queue_refuted. Qed.
 
+(* non-vacuity of sc_exh_ok beyond the HMAC kinds: an UnknownPathSecret packet without queue id
+   (all 255 x 18 single-byte mutations of its header evaluated by vm_compute), and a StaleKey *)
+Example C18_example_sc_exh_ok :
+  sc_exh_ok [0; 0; 0; 7; 0; 5; 0; 1; 2; 3; 4; 5; 6; 7; 8; 9; 10; 11; 12; 13; 14; 15; 16; 1; 18; 1; 0]%Z = true /\
+  sc_exh_ok [0; 1; 1; 7; 1; 16384; 64; 1; 2; 3; 4; 5; 6; 7; 8; 9; 10; 11; 12; 13; 14; 15; 16; 2; 3; 1; 3; 1; 0]%Z = true.
+Proof. split; vm_compute; reflexivity. Qed.
+
 (* ---- stream, datagram, control packets *)
 Theorem C18_pkt_constants :
   Gen_C18.stream_tag_default = 0 /\ Gen_C18.stream_tag_min = 0 /\ Gen_C18.stream_tag_max = 63 /\
@@ -130,6 +137,26 @@ Theorem C18_control_decode_spec : forall bs d h tg rest,
   ct_decode bs = Some (d, h, tg, rest) ->
   bs = h ++ tg ++ rest /\ length tg = tag_len /\ ct_parse h = Some (d, []).
 Proof. exact DcPacketProofs.ct_decode_spec. Qed.
+
+Theorem C18_stream_parse_injective : forall bs bs' d h pl tg d' h' pl' tg' rest,
+  st_decode bs = Some (d, h, pl, tg, rest) -> st_decode bs' = Some (d', h', pl', tg', rest) ->
+  bs <> bs' -> (h, pl, tg) <> (h', pl', tg').
+Proof. exact DcPacketProofs.st_parse_injective. Qed.
+
+Theorem C18_datagram_parse_injective : forall bs bs' d h pl tg d' h' pl' tg' rest,
+  dg_decode bs = Some (d, h, pl, tg, rest) -> dg_decode bs' = Some (d', h', pl', tg', rest) ->
+  bs <> bs' -> (h, pl, tg) <> (h', pl', tg').
+Proof. exact DcPacketProofs.dg_parse_injective. Qed.
+
+Theorem C18_control_parse_injective : forall bs bs' d h tg d' h' tg' rest,
+  ct_decode bs = Some (d, h, tg, rest) -> ct_decode bs' = Some (d', h', tg', rest) ->
+  bs <> bs' -> (h, tg) <> (h', tg').
+Proof. exact DcPacketProofs.ct_parse_injective. Qed.
+
+Theorem C18_stream_fields_of_header : forall bs bs' d d' h pl pl' tg tg' rest rest',
+  st_decode bs = Some (d, h, pl, tg, rest) -> st_decode bs' = Some (d', h, pl', tg', rest') ->
+  d = d' /\ lenN pl = lenN pl'.
+Proof. exact DcPacketProofs.st_fields_of_header. Qed.
 
 (* ideal AEAD / MAC (premise): every change of a header, payload or tag byte, and every truncation,
    of the one packet that was sealed is rejected *)
@@ -255,3 +282,7 @@ Print Assumptions C18_map_judge_model.
 Print Assumptions C18_map_run_forged_no_effect.
 Print Assumptions C18_sc_exh_ok_hmac.
 Print Assumptions C18_pkt_judge_model.
+Print Assumptions C18_stream_parse_injective.
+Print Assumptions C18_datagram_parse_injective.
+Print Assumptions C18_control_parse_injective.
+Print Assumptions C18_stream_fields_of_header.
